@@ -10,12 +10,14 @@ use std::cell::Cell;
 thread_local! {
     static PUT_COUNT: Cell<u64> = Cell::new(0);
     static FAIL_AT: Cell<u64> = Cell::new(0);
+    static BITS_PUT: Cell<u64> = Cell::new(0);
 }
 
 /// Resets the per-thread `put` counter and arms a failure at the `k`-th `put`
 /// (1-based). `k == 0` only counts and never fails.
 pub fn arm_put_failure(k: u64) {
     PUT_COUNT.with(|c| c.set(0));
+    BITS_PUT.with(|c| c.set(0));
     FAIL_AT.with(|c| c.set(k));
 }
 
@@ -30,12 +32,22 @@ pub fn is_armed() -> bool {
     FAIL_AT.with(|c| c.get()) != 0
 }
 
+/// Total number of bits offered to `put` since the last `arm_put_failure`
+/// (the failing call, if any, is not counted).
+pub fn bits_put() -> u64 {
+    BITS_PUT.with(|c| c.get())
+}
+
 #[inline]
-pub(crate) fn on_put() -> bool {
+pub(crate) fn on_put(len: usize) -> bool {
     let n = PUT_COUNT.with(|c| {
         let n = c.get() + 1;
         c.set(n);
         n
     });
-    FAIL_AT.with(|c| c.get()) == n
+    if FAIL_AT.with(|c| c.get()) == n {
+        return true;
+    }
+    BITS_PUT.with(|c| c.set(c.get() + len as u64));
+    false
 }
